@@ -375,50 +375,53 @@ func c13round(t *testing.T, o *vout, rng *vrng, ndev, perDev, round int) {
 	rmu.Lock()
 	defer rmu.Unlock()
 
-	// judge: for every pushed frame, how many readings carry exactly its (device, resource, canonical content)
-	used := make([]bool, len(got))
-	for _, p := range pushes {
-		obs := "none"
-		var key, res string
+	// judge: readings are compared as a multiset. For every (device, resource, canonical content) the number of
+	// readings must equal the number of pushed frames that denote it (two identical frames, e.g. two empty reports,
+	// legitimately give two identical readings); a frame's line says count=1 when its key is balanced.
+	type rkey struct{ dev, res, content string }
+	keyOf := func(p c13push) (rkey, bool) {
 		switch p.typ {
 		case 61:
 			m := &llrp.ROAccessReport{}
 			if m.UnmarshalBinary(p.payload) == nil {
-				key, res = vhex(c13mustMarshal(m)), ResourceROAccessReport
+				return rkey{names[p.dev], ResourceROAccessReport, vhex(c13mustMarshal(m))}, true
 			}
 		case 63:
 			m := &llrp.ReaderEventNotification{}
 			if m.UnmarshalBinary(p.payload) == nil {
-				key, res = vhex(c13mustMarshal(m)), ResourceReaderNotification
+				return rkey{names[p.dev], ResourceReaderNotification, vhex(c13mustMarshal(m))}, true
 			}
 		}
-		count := 0
-		for gi, g := range got {
-			if res != "" && !used[gi] && g.dev == names[p.dev] && g.res == res && g.content == key && count == 0 {
-				used[gi] = true
-				count++
-			}
-		}
-		if res != "" {
-			// any further identical readings are duplicates (contents are unique by construction, except garbage that happens to decode)
-			dups := 0
-			for gi, g := range got {
-				if !used[gi] && g.dev == names[p.dev] && g.res == res && g.content == key {
-					dups++
-				}
-			}
-			obs = fmt.Sprintf("some %s x%s count=%d", res, key, count+dups)
-			if dups > 0 {
-				// leave them unmatched so that they also show up as extra readings
-			}
-		}
-		o.line(fmt.Sprintf("publish %d %d x%s", p.dev, p.typ, vhex(p.payload)), obs)
+		return rkey{}, false
 	}
+	expected := map[rkey]int{}
+	for _, p := range pushes {
+		if k, ok := keyOf(p); ok {
+			expected[k]++
+		}
+	}
+	gotN := map[rkey]int{}
 	extra := 0
-	for gi := range got {
-		if !used[gi] {
+	for _, g := range got {
+		k := rkey{g.dev, g.res, g.content}
+		gotN[k]++
+		if expected[k] == 0 {
 			extra++
 		}
+	}
+	for _, p := range pushes {
+		obs := "none"
+		if k, ok := keyOf(p); ok {
+			count := 1
+			if gotN[k] != expected[k] {
+				count = gotN[k] // lost (fewer) or duplicated (more) relative to the frames that denote this reading
+				if count == 1 {
+					count = 0 // (expected ≥ 2, got 1): report it as a loss
+				}
+			}
+			obs = fmt.Sprintf("some %s x%s count=%d", k.res, k.content, count)
+		}
+		o.line(fmt.Sprintf("publish %d %d x%s", p.dev, p.typ, vhex(p.payload)), obs)
 	}
 	o.line(fmt.Sprintf("expect-zero extra-readings-round-%d", round), fmt.Sprint(extra))
 	o.line(fmt.Sprintf("expect-zero stuck-device-updates-round-%d", round), fmt.Sprint(atomic.LoadInt32(&stuckUpdates)))
